@@ -45,6 +45,8 @@ type RunSpec struct {
 	// Explicit, when non-nil, replaces the policy by the literal switch list.
 	Explicit []SwitchEv `json:"explicit,omitempty"`
 	Repeat   int        `json:"repeat,omitempty"` // execute the run this many times (map-order defects, DESIGN.md §3.3)
+	// ClockJumps: simulated time passes between calls (jumps of 1 ms .. 1 h).
+	ClockJumps bool `json:"clock_jumps,omitempty"`
 }
 
 // Strategies and their weights.
@@ -100,6 +102,7 @@ func GenRunSpec(procSeed uint64, idx int, pool []*Key, eligible []int) RunSpec {
 		spec.Tasks = append(spec.Tasks, ts)
 	}
 	spec.StickPct = []int{0, 50, 80, 95}[r.Intn(4)]
+	spec.ClockJumps = r.Chance(1, 2)
 	switch spec.Strategy {
 	case "sequential":
 		spec.StickPct = []int{0, 50, 100}[r.Intn(3)]
@@ -149,7 +152,7 @@ func sortU64(a []uint64) {
 // preemption — the fault-free configuration in which a failure is attributable to history alone.
 func GenHistorySpec(procSeed uint64, idx int, pool []*Key, eligible []int) RunSpec {
 	r := prng.Sub(procSeed, "c14-history-run", uint64(idx))
-	spec := RunSpec{Index: idx, Seed: r.Uint64(), Strategy: "sequential", StickPct: 100}
+	spec := RunSpec{Index: idx, Seed: r.Uint64(), Strategy: "sequential", StickPct: 100, ClockJumps: r.Chance(1, 2)}
 	nt := 1
 	if r.Chance(1, 4) {
 		nt = 2
